@@ -6,6 +6,7 @@
 import Melda.Driver
 import Melda.Replica
 import Melda.Flatten
+import Melda.Doc
 namespace Melda
 
 def sortStrs (l : List Str) : List Str :=
@@ -30,17 +31,46 @@ def treeObs (t : RevTree) : JVal :=
     (S "w", jopt (t.winner.map Rev.render)),
     (S "l", .arr ((sortStrs (t.leafs.map Rev.render)).map jstr))])
 
-def obsOf (st : PState) : JVal :=
+def resJson (r : Res JVal) : JVal :=
+  match r with
+  | .ok v => .obj [(S "ok", v)]
+  | .err e => .obj [(S "err", jstr (msgPrefix e))]
+  | .panic m => .obj [(S "panic", jstr (msgPrefix m))]
+
+def obsOf (st : PState) (readRes : JVal) (stageKeys : List Str) : JVal :=
   .obj (objOfList [
     (S "deltas", .obj (objOfList (st.deltas.map (fun p => (p.1.id.render, jstr (statusName p.2)))))),
     (S "trees", .obj (objOfList (st.docs.map (fun p => (p.1, treeObs p.2))))),
     (S "anchors", .arr ((sortStrs (st.anchors.map BlockId.render)).map jstr)),
     (S "objects", .arr ((sortStrs st.objects.eraseDups).map jstr)),
-    (S "packs", .arr ((sortStrs st.appliedPacks).map jstr))])
+    (S "packs", .arr ((sortStrs st.appliedPacks).map jstr)),
+    (S "read", readRes),
+    (S "stage", .arr ((sortStrs stageKeys).map jstr))])
 
 structure SimRep where
   kv : KVSpec := {}
-  st : PState := {}
+  d : DState := {}
+  /-- parsed bodies of the objects of every pack seen so far -/
+  bodies : List (Str × JObj) := []
+  seenPacks : List Str := []
+
+/-- committed object bodies: only digests in the replica's index are served -/
+def SimRep.src (rep : SimRep) (st : PState) : Src := fun dg =>
+  if st.objects.contains dg then (rep.bodies.find? (fun p => p.1 = dg)).map (·.2) else none
+
+/-- parse the bodies of packs that became applied -/
+def SimRep.learnPacks (H : Bytes → Str) (rep : SimRep) (kv : KVSpec) (st : PState) : SimRep :=
+  st.appliedPacks.foldl (fun (rep : SimRep) k =>
+    if rep.seenPacks.contains k then rep
+    else match kv.read (k ++ PACK_EXT) with
+      | none => rep
+      | some bytes =>
+        let objs := (scanPack bytes).filterMap (fun (o, l) =>
+          let sl := slice bytes o l
+          match parseJsonBytes sl with
+          | some (.obj body) => some (H sl, body)
+          | _ => none)
+        { rep with bodies := rep.bodies ++ objs, seenPacks := k :: rep.seenPacks }) rep
 
 def addItems (kv : KVSpec) (items : JObj) : Option KVSpec :=
   items.foldl (fun acc p => match acc, p.2 with
@@ -99,7 +129,8 @@ def simStep (H : Bytes → Str) (reps : Array SimRep) (line : JVal) : Array SimR
     let obs := (objGet (S "obs") o).getD .null
     if prim = S "init" then
       let n := ((objGet (S "n") o).bind asNat?).getD 0
-      (Array.replicate n {}, S "ok")
+      let cap := ((objGet (S "acap") o).bind asNat?).getD 16
+      (Array.replicate n { d := { acache := { cap := cap } } }, S "ok")
     else
     match reps[r]? with
     | none => (reps, S "MISMATCH bad replica index")
@@ -108,40 +139,77 @@ def simStep (H : Bytes → Str) (reps : Array SimRep) (line : JVal) : Array SimR
       | none => (reps, S "MISMATCH bad items")
       | some kv =>
         let v := viewOf H kv
-        let finish := fun (st' : PState) (extra : Str) =>
-          let mo := obsOf st'
-          let reps' := reps.set! r { kv := kv, st := st' }
+        -- finish with a new document-level state
+        let finishD := fun (d' : DState) (extra : Str) =>
+          let rep1 := (SimRep.learnPacks H { rep with kv := kv } kv d'.p)
+          let rd := DState.read (rep1.src d'.p) d'
+          let (rj, d'') : JVal × DState := match rd with
+            | .ok (v, c) => (resJson (.ok v), { d' with acache := c })
+            | .err e => (resJson (.err e), d')
+            | .panic m => (resJson (.panic m), d')
+          let mo := obsOf d''.p rj (d''.stage.map (·.1))
+          let reps' := reps.set! r { rep1 with d := d'' }
           if mo.render = obs.render then
             (reps', if extra.isEmpty then S "ok" else S "MISMATCH " ++ extra)
           else (reps', S "MISMATCH " ++ prim ++ S " state: " ++ firstDiff mo obs ++ (if extra.isEmpty then [] else S " ; " ++ extra))
+        let finish := fun (st' : PState) (extra : Str) => finishD { rep.d with p := st' } extra
         let expectRes := fun (ok : Bool) => if (res = S "ok") = ok then ([] : Str) else S "result class: model " ++ (if ok then S "ok" else S "err") ++ S " impl " ++ res
+        let st := rep.d.p
+        let src := rep.src st
+        let classOf := fun {α : Type} (x : Res α) => match x with | .ok _ => S "ok" | .err _ => S "err" | .panic _ => S "panic"
         if prim = S "new" then
+          let cap := rep.d.acache.cap
           match PState.reload {} v with
-          | .ok st' => finish st' (expectRes true)
-          | .error _ => ((reps.set! r { kv := kv, st := {} }), if res = S "err" then S "ok" else S "MISMATCH new: model fails, impl " ++ res)
+          | .ok st' => finishD { p := st', stage := [], acache := { cap := cap } } (expectRes true)
+          | .error _ => ((reps.set! r { rep with kv := kv, d := { acache := { cap := cap } } }), if res = S "err" then S "ok" else S "MISMATCH new: model fails, impl " ++ res)
         else if prim = S "reload" then
-          match PState.reload rep.st v with
+          match PState.reload st v with
           | .ok st' => finish st' (expectRes true)
-          | .error _ => finish rep.st (expectRes false)
+          | .error _ => finish st (expectRes false)
         else if prim = S "refresh" then
-          match PState.refresh rep.st v with
+          match PState.refresh st v with
           | .ok st' => finish st' (expectRes true)
-          | .error _ => finish rep.st (expectRes false)
+          | .error _ => finish st (expectRes false)
         else if prim = S "until" then
           let anchors := parseIds (((objGet (S "anchors") o).bind JVal.asArr?).getD [])
-          match PState.reloadUntil rep.st v anchors with
+          match PState.reloadUntil st v anchors with
           | .ok st' => finish st' (expectRes true)
           | .error _ =>
-            -- a failed time travel leaves the implementation half-way: resynchronise from its report
-            ((reps.set! r { kv := kv, st := rep.st }), if res = S "err" then S "ok-err" else S "MISMATCH until: model fails, impl " ++ res)
-        else if prim = S "unstage" then finish rep.st.unstage []
-        else if prim = S "put" then finish rep.st []
+            ((reps.set! r { rep with kv := kv }), if res = S "err" then S "ok-err" else S "MISMATCH until: model fails, impl " ++ res)
+        else if prim = S "unstage" then finishD { rep.d with p := st.unstage, stage := [] } []
+        else if prim = S "put" then finish st []
+        else if prim = S "update" then
+          match (objGet (S "doc") o) with
+          | some (.obj doc) =>
+            (match DState.update H src rep.d doc with
+             | .ok (d', _) => finishD d' (expectRes true)
+             | x => finish st (S "update: model " ++ classOf x ++ S " impl " ++ res))
+          | _ => (reps, S "MISMATCH update without doc")
+        else if prim = S "delete" then
+          match (objGet (S "uuid") o).bind JVal.asStr? with
+          | some u =>
+            (match DState.deleteObject H rep.d u with
+             | .ok (d', _) => finishD d' []
+             | x => finish st (S "delete: model " ++ classOf x))
+          | none => (reps, S "MISMATCH delete without uuid")
+        else if prim = S "resolve" then
+          match (objGet (S "uuid") o).bind JVal.asStr?, (objGet (S "rev") o).bind JVal.asStr? with
+          | some u, some rv =>
+            (match DState.resolveAs H src rep.d u rv with
+             | .ok (d', _) => finishD d' (expectRes true)
+             | .err _ => finish st (expectRes false)
+             | .panic _ => finish st (if res = S "panic" then [] else S "resolve: model panics, impl " ++ res))
+          | _, _ => (reps, S "MISMATCH resolve without uuid/rev")
+        else if prim = S "snapshot" then
+          match DState.snapshot H src rep.d with
+          | .ok d' => finishD d' (expectRes true)
+          | x => finish st (S "snapshot: model " ++ classOf x ++ S " impl " ++ res)
         else if prim = S "meld" then
           let from_ := ((objGet (S "from") o).bind asNat?).getD 0
           match reps[from_]? with
           | none => (reps, S "MISMATCH bad source replica")
           | some other =>
-            let (bids, packs) := PState.meldKeys rep.st other.st
+            let (bids, packs) := PState.meldKeys st other.d.p
             let otherKeys := other.kv.items.map (·.1)
             let extraKeys := otherKeys.filter (fun k => !KVSpec.isSuffix DELTA_EXT k && !KVSpec.isSuffix PACK_EXT k && (rep.kv.read k).isNone)
             let expect := bids.map BlockId.key ++ packs.map (· ++ PACK_EXT) ++ extraKeys
@@ -150,51 +218,71 @@ def simStep (H : Bytes → Str) (reps : Array SimRep) (line : JVal) : Array SimR
             let bytesOk := items.all (fun p => match p.2 with
               | .str hx => (hexDecode hx) = other.kv.read p.1
               | _ => false)
-            finish rep.st ((if sameSet expectNew got then [] else S "meld wrote " ++ (JVal.arr (got.map jstr)).render ++ S " model expects " ++ (JVal.arr (expectNew.map jstr)).render)
+            finish st ((if sameSet expectNew got then [] else S "meld wrote " ++ (JVal.arr (got.map jstr)).render ++ S " model expects " ++ (JVal.arr (expectNew.map jstr)).render)
                            ++ (if bytesOk then [] else S " meld bytes differ from the source"))
         else if prim = S "commit" then
-          if res = S "none" then finish rep.st (if rep.st.hasStaging then S "commit reported nothing although the model has staged entries" else [])
-          else if res = S "err" then
-            -- a failed commit may already have written (and indexed) its pack
-            let newPacks := (items.map (·.1)).filterMap (fun k =>
-              if KVSpec.isSuffix PACK_EXT k then some (k.take (k.length - PACK_EXT.length)) else none)
-            let st' := newPacks.foldl (fun (st : PState) k => match loadPackBytes H kv k with
-              | some l => { st with objects := st.objects ++ l.map (·.1), appliedPacks := st.appliedPacks ++ [k] }
-              | none => st) rep.st
-            -- the automatic resolution of array conflicts may already have staged revisions: adopt the
-            -- reported trees after checking that committed entries are untouched
-            let trees := ((objGet (S "trees") (obs.asObj?.getD [])).bind JVal.asObj?).getD []
-            let docs' := treesOfObs trees
-            let e1 := if sameSet (committedEntries docs') (committedEntries rep.st.docs) then [] else S "a failed commit changed committed revisions"
-            finish { st' with docs := docs' } e1
+          if !st.hasStaging then
+            finish st (if res = S "none" then [] else S "commit: nothing staged in the model, impl " ++ res)
           else
-            match ((objGet (S "id") o).bind JVal.asStr?).bind BlockId.parse with
-            | none => (reps, S "MISMATCH commit without id")
-            | some id =>
-              match fetchBlock H kv id with
-              | none => finish rep.st (S "committed block does not pass the model's hash gate / parser")
-              | some b =>
-                let staged := PState.stagedChanges rep.st.docs
-                let e1 := if sameSet b.parents rep.st.anchors then [] else S "parents are not the previous heads; "
-                -- commit first resolves array conflicts (a staging step of its own): those records are extra
-                let extra := b.changes.filter (fun c => !staged.contains c)
-                let e2 := if staged.all (b.changes.contains ·) && extra.all (fun c => isArrayDescriptor c.uuid) then []
-                          else S "change records differ from the staged revisions; "
-                let docsX := extra.foldl (fun d c => PState.applyChanges d [c]) rep.st.docs
-                let (newObjs, pk) : List Str × Option Str := match b.packs with
-                  | [k] => (((loadPackBytes H kv k).getD []).map (·.1), some k)
-                  | _ => ([], none)
-                let e3 := if b.packs.all (fun k => (loadPackBytes H kv k).isSome) then [] else S "named pack missing or invalid; "
-                let e4 := if (items.map (·.1)).all (fun k => k = id.key ∨ b.packs.any (fun p => p ++ PACK_EXT = k)) then [] else S "commit wrote unexpected items; "
-                let e5 := if PState.changesReadable (rep.st.objects ++ newObjs) b.changes then [] else S "a committed revision has no readable object; "
-                finish (PState.validateAll (PState.commitBook { rep.st with docs := docsX } b newObjs pk)) (e1 ++ e2 ++ e3 ++ e4 ++ e5)
+            match DState.autoResolve H src rep.d with
+            | .err _ => finish st (S "commit: automatic resolution fails in the model")
+            | .panic _ => finish st (if res = S "panic" then [] else S "commit: automatic resolution panics in the model, impl " ++ res)
+            | .ok d1 =>
+              let stagedDigests := d1.stage.map (·.1)
+              let writtenPacks := (items.map (·.1)).filterMap (fun k =>
+                if KVSpec.isSuffix PACK_EXT k then some (k.take (k.length - PACK_EXT.length)) else none)
+              -- the pack this call produced: named by the block when there is one; otherwise the pack
+              -- that appeared in storage, or (write-once storage: an identical pack may already exist)
+              -- an unapplied pack holding exactly the staged objects, if the implementation's stage is empty
+              let implStageEmpty := match objGet (S "stage") (obs.asObj?.getD []) with | some (.arr []) => true | _ => false
+              let blockPacks : Option (List Str) :=
+                if res = S "ok" then
+                  (((objGet (S "id") o).bind JVal.asStr?).bind BlockId.parse).bind (fun id => (fetchBlock H kv id).map (·.packs))
+                else none
+              let newPacks : List Str := match blockPacks with
+                | some ps => ps.filter (fun k => !d1.p.appliedPacks.contains k)
+                | none =>
+                  if !writtenPacks.isEmpty then writtenPacks
+                  else if implStageEmpty && !stagedDigests.isEmpty then
+                    ((kv.list PACK_EXT).filter (fun k => !d1.p.appliedPacks.contains k &&
+                      (match loadPackBytes H kv k with | some l => sameSet (l.map (·.1)) stagedDigests | none => false))).take 1
+                  else []
+              -- a pack produced by this call is indexed and empties the data stage, even if the block write fails
+              let (d2, packObjs) : DState × List Str := newPacks.foldl (fun (acc : DState × List Str) k =>
+                match loadPackBytes H kv k with
+                | some l => ({ acc.1 with p := { acc.1.p with objects := acc.1.p.objects ++ l.map (·.1), appliedPacks := acc.1.p.appliedPacks ++ [k] }, stage := [] },
+                             acc.2 ++ l.map (·.1))
+                | none => acc) (d1, [])
+              let ePack := if newPacks.isEmpty then []
+                           else if sameSet packObjs stagedDigests then [] else S "pack objects differ from the staged objects; "
+              if res = S "err" then finishD d2 ePack
+              else if res = S "none" then finishD d2 (S "commit reported nothing although the model has staged entries")
+              else
+                match ((objGet (S "id") o).bind JVal.asStr?).bind BlockId.parse with
+                | none => (reps, S "MISMATCH commit without id")
+                | some id =>
+                  match fetchBlock H kv id with
+                  | none => finishD d2 (S "committed block does not pass the model's hash gate / parser")
+                  | some b =>
+                    let staged := PState.stagedChanges d2.p.docs
+                    let e1 := if sameSet b.parents st.anchors then [] else S "parents are not the previous heads; "
+                    let e2 := if sameSet b.changes staged then [] else S "change records differ from the staged revisions; "
+                    let e3 := if b.packs.all (fun k => (loadPackBytes H kv k).isSome) then [] else S "named pack missing or invalid; "
+                    let e4 := if (items.map (·.1)).all (fun k => k = id.key ∨ b.packs.any (fun p => p ++ PACK_EXT = k)) then [] else S "commit wrote unexpected items; "
+                    let e5 := if PState.changesReadable d2.p.objects b.changes then [] else S "a committed revision has no readable object; "
+                    let e6 := if writtenPacks.all (b.packs.contains ·) then [] else S "a pack was written that the block does not name; "
+                    let e7 := if d2.stage.isEmpty then [] else S "staged objects were not packed; "
+                    let p' := PState.validateAll { d2.p with deltas := PState.insertDelta b .applied d2.p.deltas, docs := d2.p.docs.map (fun p => (p.1, p.2.commit)) }
+                    finishD { d2 with p := p', stage := [] } (e1 ++ e2 ++ e3 ++ e4 ++ e5 ++ e6 ++ e7 ++ ePack)
         else if prim = S "adopt" then
-          -- staging operations (update, delete, resolve, snapshot, replay): the model takes over the
-          -- reported trees after checking that committed entries are untouched and re-deriving leaves/winner
+          -- replay of an exported stage: the model takes over the reported trees and staged bodies
+          -- after checking that committed entries are untouched and re-deriving leaves/winner
           let trees := ((objGet (S "trees") (obs.asObj?.getD [])).bind JVal.asObj?).getD []
           let docs' := treesOfObs trees
-          let e1 := if sameSet (committedEntries docs') (committedEntries rep.st.docs) then [] else S "a staging operation changed committed revisions"
-          finish { rep.st with docs := docs' } e1
+          let e1 := if sameSet (committedEntries docs') (committedEntries st.docs) then [] else S "a staging operation changed committed revisions"
+          let bodies := ((objGet (S "bodies") o).bind JVal.asObj?).getD []
+          let stage' : List (Str × JObj) := bodies.filterMap (fun p => match p.2 with | .obj b => some (p.1, b) | _ => none)
+          finishD { rep.d with p := { st with docs := docs' }, stage := stage' } e1
         else (reps, S "MISMATCH unknown primitive " ++ prim)
   | _ => (reps, S "MISMATCH bad line")
 
